@@ -26,37 +26,38 @@ UTIL_ANALYSIS = ['Location.*', 'insert_loc', 'visitor', 'StopVisiting.*', 'get_e
                  'StopNodeVisitor.*', 'get_indexes_for_target', 'np', 'clone_node']
 UTIL_MARK = ['Source.*', 'splitlines', 'unmark', 'marked', 'get_marked_*', 'get_any_marked_*', 'split_pkg', 'join_pkg', '_join_level_pkg']
 UTIL_MEMO = ['cycle_guard.*', 'cached_property.*', 'context_property']
-ANALYSIS = [('supp/nast.py', ['*']), ('supp/scope.py', ['*']), ('supp/merged_dict.py', ['*']), ('supp/util.py', UTIL_ANALYSIS)]
+COMPAT = ('supp/compat.py', ['*'])       # iteritems / itervalues / range / builtins shims used by every analysis module
+ANALYSIS = [('supp/nast.py', ['*']), ('supp/scope.py', ['*']), ('supp/merged_dict.py', ['*']), ('supp/util.py', UTIL_ANALYSIS + ['<module>']), COMPAT]
 NAMES = ['MultiName.*', 'UndefinedName.*', 'Name.*', 'AssignedName.*', 'ArgumentName.__init__']
-ATTRS = ['Object.*', 'ClassObject.*', 'InstanceValue.*', 'FuncObject.*', 'RuntimeName.*', 'MultiValue.*', 'CompositeValue.*',
+ATTRS = ['<module>', 'first_name', 'ArgumentName.*', 'Callable.*', 'Resolvable.*', 'Name.*', 'Object.*', 'ClassObject.*', 'InstanceValue.*', 'FuncObject.*', 'RuntimeName.*', 'MultiValue.*', 'CompositeValue.*',
          'AssignedAttribute.*', 'AttrObject.*', 'AdditionalNameWrapper.*']
 
 FOOTPRINT = {
     'C01': ANALYSIS + [('supp/linter.py', ['*']), ('supp/name.py', NAMES)],
     'C02': ANALYSIS + [('supp/linter.py', ['*']), ('supp/name.py', NAMES)],
     'C03': ANALYSIS + [('supp/linter.py', ['*']), ('supp/name.py', NAMES)],
-    'C04': [('supp/scope.py', ['*']), ('supp/merged_dict.py', ['*']), ('supp/util.py', ['Location.*', 'insert_loc'] + UTIL_MEMO),
+    'C04': [COMPAT, ('supp/scope.py', ['*']), ('supp/merged_dict.py', ['*']), ('supp/util.py', ['Location.*', 'insert_loc'] + UTIL_MEMO),
             ('supp/evaluator.py', ['EvalCtx.__init__', 'EvalCtx.evaluate']),
             ('supp/name.py', ['MultiValue.*', 'CompositeValue.*', 'ImportedName.*'])],
     'C05': ANALYSIS,
-    'C06': [('supp/name.py', ATTRS), ('supp/evaluator.py', ['*']),
+    'C06': [COMPAT, ('supp/name.py', ATTRS), ('supp/evaluator.py', ['*']),
             ('supp/scope.py', ['SourceScope.assigns', 'SourceScope.add_attr_assign', 'ClassScope.*'])],
-    'C07': [('supp/project.py', ['Project.__init__', 'Project.get_path', 'Project.list_packages', 'Project.get_module', 'Project.get_nmodule',
+    'C07': [COMPAT, ('supp/project.py', ['Project.__init__', 'Project.get_path', 'Project.list_packages', 'Project.get_module', 'Project.get_nmodule',
                                  'Project.norm_package', 'Project._package_parts', 'Project._renormed']),
             ('supp/assistant.py', ['list_packages', 'assist']), ('supp/util.py', ['split_pkg', 'join_pkg', '_join_level_pkg'])],
     'C08': ANALYSIS + [('supp/assistant.py', ['*']), ('supp/linter.py', ['*']), ('supp/util.py', UTIL_MARK)],
-    'C09': [('supp/project.py', ['*']), ('supp/module.py', ['*']), ('supp/name.py', ['ImportedName.*'])],
-    'C10': [('supp/linter.py', ['*']), ('supp/scope.py', ['SourceScope.find_id_loc', 'SourceScope.alias_start']),
+    'C09': [COMPAT, ('supp/project.py', ['*']), ('supp/module.py', ['*']), ('supp/name.py', ['ImportedName.*'])],
+    'C10': [COMPAT, ('supp/linter.py', ['*']), ('supp/scope.py', ['SourceScope.find_id_loc', 'SourceScope.alias_start']),
             ('supp/nast.py', ['extract_visitor.visit_Import', 'extract_visitor.visit_ImportFrom'])],
-    'C11': [('supp/scope.py', ['SourceScope.find_id_loc', 'SourceScope.alias_start', 'FuncScope.__init__', 'ClassScope.__init__']),
+    'C11': [COMPAT, ('supp/scope.py', ['SourceScope.find_id_loc', 'SourceScope.alias_start', 'FuncScope.__init__', 'ClassScope.__init__']),
             ('supp/util.py', ['splitlines', 'Source.*']),
             ('supp/nast.py', ['extract_visitor.visit_Import', 'extract_visitor.visit_ImportFrom'])],
     'C12': ANALYSIS + [('supp/assistant.py', ['assist', 'list_packages']), ('supp/util.py', UTIL_MARK)],
     'C13': ANALYSIS + [('supp/linter.py', ['*'])],
     'C14': [('supp/umsgpack.py', ['*'])],
-    'C15': [('supp/server.py', ['*']), ('supp/remote.py', ['Environment._call', 'Environment.__getattr__']), ('supp/umsgpack.py', ['*'])],
+    'C15': [COMPAT, ('supp/server.py', ['*']), ('supp/remote.py', ['Environment._call', 'Environment.__getattr__']), ('supp/umsgpack.py', ['*'])],
     'C16': [('supp/remote.py', ['*']), ('supp/server.py', ['Server.run', 'Server.__init__'])],
-    'C17': [('supp/name.py', ['MultiName.*', 'UndefinedName.*']), ('supp/scope.py', ['*']), ('supp/merged_dict.py', ['*']),
+    'C17': [COMPAT, ('supp/name.py', ['MultiName.*', 'UndefinedName.*']), ('supp/scope.py', ['*']), ('supp/merged_dict.py', ['*']),
             ('supp/assistant.py', ['*']), ('supp/linter.py', ['*'])],
 }
 
